@@ -189,6 +189,94 @@ theorem early_cancellation_impossible (s : St) (hr : Trace.Reach osys s) :
     simp [shows, earlyOk, this]
   · simp [shows, hc]
 
+def isListenerEv : Ev → Bool | .listener _ => true | _ => false
+
+/-- the model's listener counter is the number of `listener` events shown: along any run -/
+theorem listener_count_is_events (a b : St) (tr : List Ev) (h : Trace.Run osys a tr b) :
+    b.listener = a.listener + (tr.filter isListenerEv).length := by
+  induction h with
+  | nil s => simp
+  | silent s s' s'' x tr hm hs hst _ ih =>
+    have hl : s'.listener = s.listener := by
+      cases x with
+      | core c =>
+        cases c <;> simp only [osys, TraceTimeout.step, Timeout.step] at hst <;> (try (simp [osys, silent] at hs; done)) <;>
+          (repeat' (split at hst)) <;> first | (cases hst; done) | (simp only [Option.some.injEq] at hst; subst hst; rfl)
+      | seeCancelled => simp [osys, silent] at hs
+      | callerRet => simp [osys, silent] at hs
+      | final => simp [osys, silent] at hs
+    rw [ih, hl]
+  | vis s s' s'' x e tr hm hs hsh hst _ ih =>
+    cases x with
+    | core c =>
+      cases c with
+      | cbListener =>
+        have hl : s'.listener = s.listener + 1 := by
+          simp only [osys, TraceTimeout.step, Timeout.step] at hst
+          split at hst
+          · simp only [Option.some.injEq] at hst; subst hst; rfl
+          · cases hst
+        have he : isListenerEv e = true := by
+          cases e <;> simp [osys, shows] at hsh <;> rfl
+        rw [ih, hl]; simp [List.filter_cons, he]; omega
+      | fnReturn =>
+        have hl : s'.listener = s.listener := by
+          simp only [osys, TraceTimeout.step, Timeout.step] at hst
+          split at hst
+          · simp only [Option.some.injEq] at hst; subst hst; rfl
+          · cases hst
+        have he : isListenerEv e = false := by
+          cases e <;> simp [osys, shows] at hsh <;> rfl
+        rw [ih, hl]; simp [List.filter_cons, he]
+      | tick => simp [osys, silent] at hs
+      | mainCAS => simp [osys, silent] at hs
+      | mainPost => simp [osys, silent] at hs
+      | fire => simp [osys, silent] at hs
+      | cbCAS => simp [osys, silent] at hs
+      | cbCancel => simp [osys, silent] at hs
+    | seeCancelled =>
+      have he : isListenerEv e = false := by cases e <;> simp [osys, shows] at hsh <;> rfl
+      have hl : s' = s := by simp only [osys, TraceTimeout.step] at hst; split at hst <;> simp_all
+      rw [ih, hl]; simp [List.filter_cons, he]
+    | callerRet =>
+      have he : isListenerEv e = false := by cases e <;> simp [osys, shows] at hsh <;> rfl
+      have hl : s' = s := by simp only [osys, TraceTimeout.step] at hst; split at hst <;> simp_all
+      rw [ih, hl]; simp [List.filter_cons, he]
+    | final =>
+      have he : isListenerEv e = false := by cases e <;> simp [osys, shows] at hsh <;> rfl
+      have hl : s' = s := by simp only [osys, TraceTimeout.step] at hst; split at hst <;> simp_all
+      rw [ih, hl]; simp [List.filter_cons, he]
+
+/-- **on traces**: in every trace the model can show — hence in every recorded run the acceptor accepts — that ends with the final
+sample, the number of `OnTimeoutExceeded` calls *in the trace* is 0 when the inner result was returned and exactly 1 when
+`ErrExceeded` was, and the sample agrees with it -/
+theorem trace_listener_calls_match_outcome (tr : List Ev) (k : Nat) (c : Bool) (t : St)
+    (h : Trace.Run osys osys.init (tr ++ [Ev.final k c]) t) :
+    k = (tr.filter isListenerEv).length ∧ ((k = 0 ∧ c = false) ∨ (k = 1 ∧ c = true)) := by
+  obtain ⟨b, hb1, hb2⟩ := Trace.Run.split_append tr [Ev.final k c] h
+  obtain ⟨s, s', x, htau, hx, hsil, hsh, hst, _⟩ := Trace.Run.single_vis hb2
+  have hrun : Trace.Run osys osys.init tr s := by
+    have := Trace.Run.append hb1 (Trace.Run.of_tau htau (Trace.Run.nil s))
+    simpa using this
+  have hreach : Trace.Reach osys s := Trace.Run.reach hrun Trace.Reach.init
+  have hcount := listener_count_is_events osys.init s tr hrun
+  cases x with
+  | final =>
+    have hss : s' = s := by simp only [osys, TraceTimeout.step] at hst; split at hst <;> simp_all
+    rw [hss] at hst
+    have hk : s.listener = k := by
+      have h0 : shows s .final (.final k c) = true := hsh
+      simp only [shows, Bool.and_eq_true, beq_iff_eq] at h0
+      exact h0.1
+    have hex := final_sample_exclusive s hreach k c hst hsh
+    refine ⟨by rw [← hk, hcount]; simp [osys], ?_⟩
+    rcases hex with ⟨_, h2, h3⟩ | ⟨_, h2, h3⟩
+    · exact Or.inl ⟨h2, h3⟩
+    · exact Or.inr ⟨h2, h3⟩
+  | core cc => cases cc <;> simp [osys, shows] at hsh
+  | seeCancelled => simp [osys, shows] at hsh
+  | callerRet => simp [osys, shows] at hsh
+
 /-- non-vacuity: both outcomes are accepted, and the forbidden mixtures are rejected (decided by running the acceptor) -/
 example : (Trace.accepts osys 20 [.fnRet true, .callerRet .inner true, .final 0 false]).map (·.isEmpty) = some false := by decide
 example : (Trace.accepts osys 20 [.listener false, .seeCancelled true false, .fnRet false, .callerRet .exceeded false, .final 1 true]).map (·.isEmpty) = some false := by decide
